@@ -526,6 +526,8 @@ func run(c *vh.Ctx) error {
 			res.Fail("oracle", matcher, what, rp)
 		}
 	}
+	// ---- (d) chain-level entry points of BlockChain ------------------------------------------------
+	chainLevelStream(c)
 	// ---- corpus (minimised past failures) --------------------------------------------------------
 	for _, f := range vh.CorpusFiles("C12") {
 		body, comments, e := vh.ReadReplay(f)
@@ -547,6 +549,8 @@ func replay(c *vh.Ctx, body, comments []string) (bool, string) {
 	quiet.Silence()
 	var t []vp
 	var ch []hdr
+	var canon []hdr
+	var clcalls []clCall
 	var drv *vh.Driver
 	if c.Driver != "" {
 		drv, _ = vh.StartDriver(c.Driver)
@@ -575,6 +579,22 @@ func replay(c *vh.Ctx, body, comments []string) (bool, string) {
 		case "H":
 			n := nums(f[1:])
 			ch = append(ch, hdr{n[0], n[1], n[2], n[3], n[4], n[5]})
+			continue
+		case "K":
+			n := nums(f[1:])
+			canon = append(canon, hdr{n[0], n[1], n[2], n[3], n[4], n[5]})
+			continue
+		case "CH", "CB":
+			var call clCall
+			call.blocks = f[0] == "CB"
+			for _, part := range strings.Split(l, "|")[1:] {
+				n := nums(strings.Fields(part))
+				call.batch = append(call.batch, hdr{n[0], n[1], n[2], n[3], n[4], n[5]})
+			}
+			if len(call.batch) > 0 {
+				call.start = int(call.batch[0].n)
+				clcalls = append(clcalls, call)
+			}
 			continue
 		case "B":
 			setTable(t)
@@ -613,6 +633,12 @@ func replay(c *vh.Ctx, body, comments []string) (bool, string) {
 					msgs = append(msgs, "go="+goOut+" lean="+m)
 				}
 			}
+		}
+	}
+	if len(clcalls) > 0 {
+		if w, _ := runChainCase(t, canon, clcalls); w != "" {
+			fails = true
+			msgs = append(msgs, w)
 		}
 	}
 	if len(ch) > 0 {
